@@ -137,6 +137,47 @@ func MarkDead(b []byte)     {}
 func UF(name string, args []uint64) uint64 { panic("vrt.UF is symbolic-only") }
 
 // OnExit is called by the engine's os.Exit model (symbolic side only).
+// ---- observations (translator self-test) ----
+
+// Observed collects the values passed to Observe during one native replay. Under the
+// engine Observe records the (possibly symbolic) term; `verif selftest` evaluates it in a
+// model of the path condition and compares with what the native run observed for the same
+// input values.
+var Observed []uint64
+
+func Observe(v uint64)   { Observed = append(Observed, v) }
+func ObserveInt(v int)   { Observe(uint64(v)) }
+func ObserveI64(v int64) { Observe(uint64(v)) }
+func ObserveBool(b bool) {
+	if b {
+		Observe(1)
+	} else {
+		Observe(0)
+	}
+}
+func ObserveStr(s string) {
+	Observe(uint64(len(s)))
+	for i := 0; i < len(s); i++ {
+		Observe(uint64(s[i]))
+	}
+}
+func ObserveBytes(b []byte) { ObserveStr(string(b)) }
+func ObserveErr(err error)  { ObserveBool(err != nil) }
+
+func printObserved(i int) {
+	if len(Observed) == 0 {
+		return
+	}
+	var sb []byte
+	for j, v := range Observed {
+		if j > 0 {
+			sb = append(sb, ',')
+		}
+		sb = append(sb, fmt.Sprintf("%x", v)...)
+	}
+	fmt.Printf("VERIF-REPLAY index=%d observed=%s\n", i, sb)
+}
+
 var ExitHook func(code int)
 
 func OnExit(code int) {
@@ -171,7 +212,7 @@ func ReplayMain(entries map[string]func()) {
 			fmt.Printf("VERIF-REPLAY index=%d error unknown entry %s\n", i, r.Entry)
 			continue
 		}
-		queue, qi, Violated = r.Values, 0, nil
+		queue, qi, Violated, Observed = r.Values, 0, nil, nil
 		params = r.Params
 		fmt.Printf("VERIF-REPLAY index=%d begin entry=%s\n", i, r.Entry)
 		func() {
@@ -181,6 +222,7 @@ func ReplayMain(entries map[string]func()) {
 					case assumeFailed:
 						fmt.Printf("VERIF-REPLAY index=%d assume-failed\n", i)
 					case stopped:
+						printObserved(i)
 						fmt.Printf("VERIF-REPLAY index=%d stopped violated=%d\n", i, len(Violated))
 					default:
 						fmt.Printf("VERIF-REPLAY index=%d panic %v\n", i, x)
@@ -188,6 +230,7 @@ func ReplayMain(entries map[string]func()) {
 				}
 			}()
 			f()
+			printObserved(i)
 			fmt.Printf("VERIF-REPLAY index=%d end violated=%d\n", i, len(Violated))
 		}()
 	}
